@@ -318,6 +318,9 @@ class Interposer:
         self.fired = False
         self.renamed: dict[str, str] = {}    # open handle name -> current name of its inode
         self.exc = None                      # callable msg -> exception instance for ("before"/"mid") crashes
+        self.refuse = None                   # callable msg -> OSError: the next move onto the advertised file is REFUSED
+        self.refused = False                 # … (raises without moving anything); afterwards, `kill_on_write_open`:
+        self.kill_on_write_open = False      # os._exit(9) right after ANY open-for-writing of the advertised path returns
 
     # naming
     def name(self, p) -> str:
@@ -418,11 +421,46 @@ class Interposer:
 
     def _mv(self, kind, fn, a, b):
         na, nb = self.name(a), self.name(b)
+        if self.refuse is not None and self.in_save and nb == "base" and not self.refused:
+            self.refused = True
+            self.note(f"refused:{kind}:{na}:{nb}")
+            if self.kill_on_write_open:
+                self._watch_advertised(Path(os.path.abspath(os.fspath(b))))
+            raise self.refuse(f"{kind} onto the advertised file refused (injected)")
         idx = self._pre(f"{kind}:{na}:{nb}")
         r = fn(a, b)
         self.renamed[na] = nb
         self._post(idx)
         return r
+
+    def _watch_advertised(self, target: Path):
+        """ONLY in a forked child: from now on every way of opening `target` for writing (builtins.open / io.open —
+        what shutil.copyfile, Path.write_bytes, … end up calling — and os.open) is performed for real and then the
+        process dies (os._exit(9)): a kill immediately after the open system call returned."""
+        import builtins
+        import io
+        real_open, real_os_open = builtins.open, os.open
+
+        def is_target(f):
+            try:
+                return Path(os.path.abspath(os.fspath(f))) == target
+            except TypeError:
+                return False
+
+        def w_open(file, mode="r", *a, **kw):
+            fh = real_open(file, mode, *a, **kw)
+            if is_target(file) and any(c in mode for c in "wax+"):
+                os._exit(9)
+            return fh
+
+        def w_os_open(path, flags, *a, **kw):
+            fd = real_os_open(path, flags, *a, **kw)
+            if is_target(path) and flags & (os.O_WRONLY | os.O_RDWR):
+                os._exit(9)
+            return fd
+        builtins.open = w_open
+        io.open = w_open
+        os.open = w_os_open
 
     def replace(self, a, b):
         return self._mv("replace", os.replace, a, b)
@@ -463,6 +501,7 @@ class Interposer:
             ip.base = Path(impl.autosave_file)
             ip.events = []
             ip.renamed = {}
+            ip.refused = False
             if ip.clock is not None and ip.schedule is not None:
                 ip.clock.now = float(ip.schedule(k))
             impl._verif_snap = k
